@@ -335,6 +335,9 @@ def execT {α : Type} (tname : String) (isMask : Bool) (T : Sem α) (sh : Shape)
           match form with
           | "vv" => match pv ta, pv tb with | some a, some b => res ((Simd.assignVV sem op a b).map sv) | _, _ => "bad-op"
           | "vs" => match pv ta, T.parse tb with | some a, some s => res ((Simd.assignVS sem op a s).map sv) | _, _ => "bad-op"
+          | "va" => match pv ta, tb.toNat? with   -- a OP= lane(k, a): the scalar is passed by value
+            | some a, some k => if k < S then res (((Simd.lane k a).bind fun s => Simd.assignVS sem op a s).map sv) else "bad-op"
+            | _, _ => "bad-op"
           | _ => noSuch
     | "un", [opn, ta] =>
       match pv ta with
@@ -454,6 +457,12 @@ def execT {α : Type} (tname : String) (isMask : Bool) (T : Sem α) (sh : Shape)
             | some a, some b => res ((Simd.ipVV loop_ASSIGNMENT_OP_vv (Simd.assignVV sem op) a b).map sv) | _, _ => "bad-op"
           | "vs" => match pv ta, T.parse tb with
             | some a, some s => res ((Simd.ipVS loop_ASSIGNMENT_OP_vs (Simd.assignVS sem op) a s).map sv) | _, _ => "bad-op"
+          | "va" => match pv ta, tb.toNat? with
+            | some a, some k =>
+              if k < S₁ * S₂ then
+                res (((Simd.laneNested k a).bind fun s => Simd.ipVS loop_ASSIGNMENT_OP_vs (Simd.assignVS sem op) a s).map sv)
+              else "bad-op"
+            | _, _ => "bad-op"
           | _ => noSuch
     | "un", [opn, ta] =>
       match pv ta with
